@@ -241,7 +241,11 @@ static void c13Format(int maxLines) {
                 if (!seenD.insert(d).second) dupD = true;
                 if (!seenU.insert(u).second) dupU = true;
             }
-            if (!dupU && !dupD) {
+            // each file twice: as written, and with the final line ended by end-of-file instead of a newline
+            const std::string fullContent = content;
+            if (!dupU && !dupD)
+              for (int noFinalNewline = 0; noFinalNewline < 2; ++noFinalNewline) {
+                content = noFinalNewline ? fullContent.substr(0, fullContent.size() - 1) : fullContent;
                 ++g_cases;
                 if (idx.size() >= 2) ++g_nontrivial;
                 writeFile(file, content);
